@@ -10,7 +10,11 @@ use std::collections::BTreeMap;
 // {"k":"if","conds":[C..],"bodies":[[..]..],"else":[..]|null,"sp":[spelling indexes]}   C = {"lit":bool}|{"var":"b1"}
 // {"k":"while","id":n,"twice":bool,"body":[..],"sp":[..]} | {"k":"for","id":n,"n":k,"body":[..],"sp":[..]}
 
-fn gen_block(r: &mut Rng, depth: usize, counter: &mut usize, budget: &mut i32) -> Vec<Value> {
+pub fn gen_block(r: &mut Rng, depth: usize, counter: &mut usize, budget: &mut i32) -> Vec<Value> {
+    gen_block_ret(r, depth, counter, budget, false)
+}
+
+pub fn gen_block_ret(r: &mut Rng, depth: usize, counter: &mut usize, budget: &mut i32, allow_ret: bool) -> Vec<Value> {
     let n = 1 + r.below(3);
     let mut out = vec![];
     for _ in 0..n {
@@ -20,9 +24,10 @@ fn gen_block(r: &mut Rng, depth: usize, counter: &mut usize, budget: &mut i32) -
         *budget -= 1;
         *counter += 1;
         let id = *counter;
-        let kind = if depth >= 3 { r.below(2) } else { r.below(6) };
+        let kind = if allow_ret && r.chance(1, 6) { 9 } else if depth >= 3 { r.below(2) } else { r.below(6) };
         let sp: Vec<usize> = (0..6).map(|_| r.below(5)).collect();
         match kind {
+            9 => out.push(json!({"k": "ret", "val": if r.chance(3, 4) { json!(format!("r{}", id)) } else { Value::Null }})),
             0 => out.push(json!({"k": "mark", "id": id})),
             1 => out.push(json!({"k": "assign", "var": format!("b{}", r.below(3)), "val": r.chance(1, 2)})),
             2 | 3 => {
@@ -31,13 +36,13 @@ fn gen_block(r: &mut Rng, depth: usize, counter: &mut usize, budget: &mut i32) -
                 let mut bodies = vec![];
                 for _ in 0..nc {
                     conds.push(if r.chance(1, 2) { json!({"lit": r.chance(1, 2)}) } else { json!({"var": format!("b{}", r.below(3))}) });
-                    bodies.push(Value::Array(gen_block(r, depth + 1, counter, budget)));
+                    bodies.push(Value::Array(gen_block_ret(r, depth + 1, counter, budget, allow_ret)));
                 }
-                let els = if r.chance(1, 2) { Value::Array(gen_block(r, depth + 1, counter, budget)) } else { Value::Null };
+                let els = if r.chance(1, 2) { Value::Array(gen_block_ret(r, depth + 1, counter, budget, allow_ret)) } else { Value::Null };
                 out.push(json!({"k": "if", "conds": conds, "bodies": bodies, "else": els, "sp": sp}));
             }
-            4 => out.push(json!({"k": "while", "id": id, "twice": r.chance(1, 2), "body": gen_block(r, depth + 1, counter, budget), "sp": sp})),
-            _ => out.push(json!({"k": "for", "id": id, "n": r.below(3), "body": gen_block(r, depth + 1, counter, budget), "sp": sp})),
+            4 => out.push(json!({"k": "while", "id": id, "twice": r.chance(1, 2), "body": gen_block_ret(r, depth + 1, counter, budget, allow_ret), "sp": sp})),
+            _ => out.push(json!({"k": "for", "id": id, "n": r.below(3), "body": gen_block_ret(r, depth + 1, counter, budget, allow_ret), "sp": sp})),
         }
     }
     out
@@ -66,10 +71,11 @@ fn cond_text(c: &Value) -> String {
     }
 }
 
-fn render(block: &Vec<Value>, out: &mut Vec<String>) {
+pub fn render(block: &Vec<Value>, out: &mut Vec<String>) {
     for s in block {
         let sp: Vec<usize> = s["sp"].as_array().map(|a| a.iter().map(|x| x.as_u64().unwrap() as usize).collect()).unwrap_or(vec![0; 6]);
         match s["k"].as_str().unwrap() {
+            "ret" => out.push(match s["val"].as_str() { Some(v) => format!("return {}", v), None => "return".to_string() }),
             "mark" => out.push(format!("trace = set \"${{trace}} m{}\"", s["id"])),
             "assign" => out.push(format!("{} = set {}", s["var"].as_str().unwrap(), s["val"])),
             "if" => {
@@ -132,13 +138,19 @@ fn eval_cond(c: &Value, vars: &BTreeMap<String, String>) -> bool {
     }
 }
 
-fn interp(block: &Vec<Value>, vars: &mut BTreeMap<String, String>, steps: &mut usize) {
+pub fn interp(block: &Vec<Value>, vars: &mut BTreeMap<String, String>, steps: &mut usize) {
+    interp_ret(block, vars, steps);
+}
+
+/// Some(v) = a `return` was executed (v = returned value, if any)
+pub fn interp_ret(block: &Vec<Value>, vars: &mut BTreeMap<String, String>, steps: &mut usize) -> Option<Option<String>> {
     for s in block {
         *steps += 1;
         if *steps > 5000 {
-            return;
+            return None;
         }
         match s["k"].as_str().unwrap() {
+            "ret" => return Some(s["val"].as_str().map(|x| x.to_string())),
             "mark" => {
                 let t = vars.get("trace").cloned().unwrap_or_default();
                 vars.insert("trace".to_string(), format!("{} m{}", t, s["id"]));
@@ -152,14 +164,18 @@ fn interp(block: &Vec<Value>, vars: &mut BTreeMap<String, String>, steps: &mut u
                 let mut done = false;
                 for (i, c) in conds.iter().enumerate() {
                     if eval_cond(c, vars) {
-                        interp(&bodies[i].as_array().unwrap().clone(), vars, steps);
+                        if let Some(rv) = interp_ret(&bodies[i].as_array().unwrap().clone(), vars, steps) {
+                            return Some(rv);
+                        }
                         done = true;
                         break;
                     }
                 }
                 if !done {
                     if let Some(e) = s["else"].as_array() {
-                        interp(e, vars, steps);
+                        if let Some(rv) = interp_ret(e, vars, steps) {
+                            return Some(rv);
+                        }
                     }
                 }
             }
@@ -168,12 +184,14 @@ fn interp(block: &Vec<Value>, vars: &mut BTreeMap<String, String>, steps: &mut u
                 vars.insert(format!("w{}", id), "true".to_string());
                 vars.insert(format!("x{}", id), s["twice"].to_string());
                 while truthy(vars.get(&format!("w{}", id))) {
-                    interp(&s["body"].as_array().unwrap().clone(), vars, steps);
+                    if let Some(rv) = interp_ret(&s["body"].as_array().unwrap().clone(), vars, steps) {
+                        return Some(rv);
+                    }
                     let x = vars.get(&format!("x{}", id)).cloned().unwrap_or_default();
                     vars.insert(format!("w{}", id), x);
                     vars.insert(format!("x{}", id), "false".to_string());
                     if *steps > 5000 {
-                        return;
+                        return None;
                     }
                 }
             }
@@ -184,13 +202,16 @@ fn interp(block: &Vec<Value>, vars: &mut BTreeMap<String, String>, steps: &mut u
                     vars.insert(format!("i{}", id), i.to_string());
                     let t = vars.get("trace").cloned().unwrap_or_default();
                     vars.insert("trace".to_string(), format!("{} f{}:{}", t, id, i));
-                    interp(&s["body"].as_array().unwrap().clone(), vars, steps);
+                    if let Some(rv) = interp_ret(&s["body"].as_array().unwrap().clone(), vars, steps) {
+                        return Some(rv);
+                    }
                 }
                 vars.insert(format!("h{}", id), "done".to_string());
             }
             _ => {}
         }
     }
+    None
 }
 
 pub fn run(input: &Value) -> Option<Value> {
@@ -208,7 +229,8 @@ pub fn run(input: &Value) -> Option<Value> {
     duckscriptsdk::load(&mut context.commands).ok()?;
     match runner::run_script(&script, context, None) {
         Ok(ctx) => {
-            let real: BTreeMap<String, String> = ctx.variables.iter().map(|(k, v)| (k.clone(), v.clone())).collect();
+            let real: BTreeMap<String, String> = ctx.variables.iter().filter(|(k, _)| !k.starts_with('h')).map(|(k, v)| (k.clone(), v.clone())).collect();
+            let vars: BTreeMap<String, String> = vars.into_iter().filter(|(k, _)| !k.starts_with('h')).collect();
             if real != vars {
                 Some(json!({"script": script, "what": "trace / final variables differ from the tree-walking interpreter", "model": vars, "real": real}))
             } else {
